@@ -34,6 +34,8 @@ SOLVERS = [None, "ConjugateGradient", "GradientMethod", "PrimalDualHybridGradien
 SOLVER_CODE = {None: 0, "ConjugateGradient": 1, "GradientMethod": 2, "PrimalDualHybridGradient": 3, "ADMM": 4, "bogus": 5}
 PROXES = [None, "l1", "l2", "box"]
 GKINDS = [None, "dense", "fd"]
+# for the runs to the end also operators G that hand back their INPUT (Identity) or a VIEW of it (Reshape): g(Gx) = g(x)
+GKINDS_ORACLE = GKINDS + ["identity", "reshape"]
 MU = {"l1": 0.3, "l2": 0.7}
 BOX = (-0.2, 0.3)
 LAM = 0.6
@@ -64,6 +66,10 @@ def make_problem(sp, spec):
         Amat = np.eye(n) + (0j if cplx else 0)
         A = sp.linop.Reshape([n], [n, 1])
         y = cplx_randn(rs, (n,), cplx)
+    if spec.get("l1rel"):
+        # scale the data so that the l1 weight is the fraction 1/l1rel ... of ||A^H y||_inf: for l1rel in (0.5, 1) the solution is
+        # sparse and the FIRST step of a zero-initialised primal-dual / proximal solver is thresholded back to exactly 0
+        y = y * (MU["l1"] / (spec["l1rel"] * float(np.max(np.abs(Amat.conj().T @ y.reshape(-1, 1))))))
     dtype = y.dtype
     z = cplx_randn(rs, (n, 1), cplx).astype(dtype) if spec["z"] else None
     lam = LAM * spec.get("lamscale", 1) if spec["lam"] else 0      # lamscale: l2 weight well above ||A||^2
@@ -75,6 +81,9 @@ def make_problem(sp, spec):
     elif gkind == "fd":
         G = sp.linop.FiniteDifference([n, 1], axes=[0])
         Gmat = np.stack([G(e.reshape(n, 1).astype(dtype)).ravel() for e in np.eye(n)], axis=1)
+    elif gkind in ("identity", "reshape"):
+        G = sp.linop.Identity([n, 1]) if gkind == "identity" else sp.linop.Reshape([n, 1], [n, 1])
+        Gmat = np.eye(n).astype(dtype)
     else:
         G, Gmat = None, np.eye(n).astype(dtype)
     gshape = list(G.oshape) if G is not None else [n, 1]
@@ -460,6 +469,10 @@ CORPUS = [
     dict(spec=dict(seed=7, n=4, m=4, cplx=False, akind="identity", gkind="fd", prox="l1", lam=True, z=True), solver="ADMM", given=False, xgiven=False),
     # fixed aea7ae2: PDHG + non-square G + proxg None + lamda 0 raised at the first update (Stack sized m+n instead of m+k)
     dict(spec=dict(seed=0, n=4, m=6, cplx=False, gkind="dense", prox=None, lam=False, z=False), solver="PrimalDualHybridGradient", given=False, xgiven=False),
+    # G returns its input / a view of it: the splitting variable v = G x must still be a separate array (ADMM)
+    dict(spec=dict(seed=0, n=4, m=6, cplx=False, gkind="identity", prox="l1", lam=False, z=False), solver="ADMM", given=False, xgiven=False),
+    dict(spec=dict(seed=0, n=4, m=6, cplx=True, gkind="reshape", prox="l2", lam=True, z=True), solver="ADMM", given=True, xgiven=True),
+    dict(spec=dict(seed=0, n=4, m=6, cplx=False, gkind="identity", prox="l1", lam=True, z=False), solver="PrimalDualHybridGradient", given=False, xgiven=False),
     # lamda >> ||A||^2 with defaulted steps
     dict(spec=dict(seed=8, n=3, m=4, cplx=False, gkind=None, prox="l1", lam=True, z=True, lamscale=200), solver="GradientMethod", given=False, xgiven=False),
     dict(spec=dict(seed=8, n=3, m=4, cplx=True, gkind=None, prox=None, lam=True, z=False, lamscale=50), solver="GradientMethod", given=False, xgiven=True),
@@ -477,6 +490,10 @@ def special_signature(spec, solver):
 def run(ctx):
     ctx.source_hash("sigpy/app.py", "sigpy/alg.py", "sigpy/prox.py")
     proof_ok = ctx.prove("Prop_C14.v")
+    # tie by translation (DESIGN 2.8): gen/Gen_lls.v is regenerated from app.py (translate_all job "lls") and compiled;
+    # its `gen_*_ok` lemmas state that _get_alg / _get_* as written in the source equal the terms of model/LLS.v
+    from tools import translate_lls
+    tie_broken = translate_lls.tie(ctx)     # obligations "translate:sigpy/app.py (...)", "tie:generated ... == hand model"
     sp = core.import_sigpy()
     rng = ctx.rng
 
@@ -539,7 +556,7 @@ def run(ctx):
                       found_input=False, signature="C14:data:%s" % info.get("alg"))
 
     # ---------------- (c) oracle: objective at the returned x vs the independent optimum ----------------------
-    combos = [(lam, zg, pk, gk) for lam in (False, True) for zg in (False, True) for pk in PROXES for gk in GKINDS]
+    combos = [(lam, zg, pk, gk) for lam in (False, True) for zg in (False, True) for pk in PROXES for gk in GKINDS_ORACLE]
     rng.shuffle(combos)
     ncombo = ctx.n(14, len(combos))
     jobs = list(CORPUS)
@@ -557,9 +574,17 @@ def run(ctx):
             if solver is None and ci % 2:
                 continue          # the default choice duplicates an explicit solver; run it on every other problem
             jobs.append(dict(spec=spec, solver=solver, given=bool(rng.getrandbits(1)), xgiven=bool(rng.getrandbits(1))))
+    # strong l1 term (weight between 0.5 and 1 of ||A^H y||_inf), zero start, default steps: the first primal step lands on 0 again
+    for ci in range(ctx.n(4, 24)):
+        cplx = ci % 3 == 1
+        n = rng.choice([3, 4, 5])
+        spec = dict(seed=rng.randrange(2 ** 31), n=n, m=n + rng.choice([1, 2]), cplx=cplx, akind="matmul", gkind=None, prox="l1",
+                    lam=bool(ci % 2), z=False, l1rel=rng.choice([0.55, 0.7, 0.85, 0.97]))
+        for solver in ("GradientMethod", "PrimalDualHybridGradient", "ADMM"):
+            jobs.append(dict(spec=spec, solver=solver, given=False, xgiven=False))
     # a dominant l2 term (lamda >> ||A||^2): every default step size / preconditioner must account for lamda
     for ci in range(ctx.n(6, 40)):
-        pk, gk = rng.choice(PROXES), rng.choice(GKINDS)
+        pk, gk = rng.choice(PROXES), rng.choice(GKINDS_ORACLE)
         cplx = (ci % 3 == 1) and pk != "box"
         n = rng.choice([2, 3, 4])
         spec = dict(seed=rng.randrange(2 ** 31), n=n, m=n + rng.choice([0, 1, 2]), cplx=cplx, akind=rng.choice(["matmul", "matmul", "identity"]),
@@ -611,8 +636,8 @@ def run(ctx):
         "instance of the model (1e-9; inner CG solve 1e-6); (c) seeded problems dims 2-6 (complex 2-4), A in {MatMul m>=n, Identity, Reshape}, "
         "every accepted solver run to max_iter {CG 50, GM 3000, PDHG 5000, ADMM 500x20}: objective vs independent optimum, y/z byte snapshots; "
         "non-trivial = every case (each has a distinct seeded problem); distinct = distinct option tuples / jobs")
-    if (not proof_ok or not corr_ok) and not ctx.violations:
-        broken = getattr(ctx, "broken_proof", {"theorem": "corr:coq-run", "log": "; ".join(ctx.notes)[-1500:]})
+    if (not proof_ok or not corr_ok or tie_broken) and not ctx.violations:
+        broken = getattr(ctx, "broken_proof", tie_broken or {"theorem": "corr:coq-run", "log": "; ".join(ctx.notes)[-1500:]})
         ctx.violation("proof obligation no longer checks: %s" % broken.get("theorem"), {"kind": "proof", "broken": broken},
                       found_input=False, signature="C14:proof")
     ctx.trusted += TRUSTED
@@ -639,7 +664,9 @@ def replay(obj):
 TRUSTED = [
     "Coq 8.16.1 kernel + vm_compute (no native_compute, no extraction)",
     "hand model coq/model/LLS.v of _get_alg / _get_* (and of prox.L2Reg, Conj, NoOp, Stack, linop.Vstack, MaxEig), tied by this run's "
-    "exact decision-table comparison and the configured-data comparison",
+    "exact decision-table comparison and the configured-data comparison, and by gen/Gen_lls.v (regenerated from app.py by "
+    "tools/translate_lls.py on every run; lemmas generated = hand model; readings of the Linop / Prox algebra: coq/model/LLSExpr.v, "
+    "notes/translate_lls.md)",
     "model/ProxGrad.v gm_step / pd_step as the reading of alg.GradientMethod / PrimalDualHybridGradient (tied by C13)",
     "the user's Prox objects are characterised by their variational inequality (proved for the concrete classes by C11)",
     "dense matrices as the linear operators A, G in the float runs (Linop semantics: C01-C04)",
